@@ -105,6 +105,7 @@ Proof.
     + rewrite nth_upd_other by auto. eauto.
   - dm; simpl; auto.
   - dm; simpl; auto.
+  - dm; simpl; auto.
 Qed.
 
 Lemma cancelled_step e w o c : cancelled w c = true -> cancelled (fst (step e w o)) c = true.
@@ -139,19 +140,46 @@ Proof.
   rewrite (cancelled_backoff e w i c maxms errid sleep b H L C). exact IH.
 Qed.
 
-(* a killed query never gets a nil error from a back-off, and pays for at most the one sleep of that call *)
+(* a killed query never gets a nil error from a back-off, and pays for at most the one sleep of that call — unless the
+   back-offer was marked KeepGoingWhenKilled (release requests): then the kill flag never ends a back-off *)
 Lemma killed_backoff e w i c maxms errid s b w' r :
-  nth_error (w_bos w) i = Some b -> killed_sig w b <> 0 ->
+  nth_error (w_bos w) i = Some b ->
   step e w (OBackoff i c maxms errid s) = (w', r) ->
-  (forall real, r <> ROk real) /\
-  (w' = w \/ exists f, r = RKilled (cut s maxms) (killed_sig w b) /\ sleep_ok f s = true /\
-                       w' = set_bo w i (slept_bo e b c f s maxms errid)).
+  (b_keep b = false -> killed_sig w b <> 0 ->
+     (forall real, r <> ROk real) /\
+     (w' = w \/ exists f, r = RKilled (cut s maxms) (killed_sig w b) /\ sleep_ok f s = true /\
+                          w' = set_bo w i (slept_bo e b c f s maxms errid))) /\
+  (b_keep b = true -> forall real sg, r <> RKilled real sg).
 Proof.
-  intros H K E. simpl in E.
+  intros H E. simpl in E.
   apply do_backoff_cases in E as [[-> [->|[->|(b0 & _ & _ & ->)]]]|(b0 & f & Hn & _ & _ & _ & _ & _ & Hs & -> & ->)].
-  1-3: split; [intros; discriminate|auto].
-  assert (b0 = b) by congruence. subst b0. unfold kill_res. apply Z.eqb_neq in K. rewrite K.
-  split; [intros; discriminate|]. right. exists f. auto.
+  1-3: split; [intros; split; [intros; discriminate|auto]|intros; discriminate].
+  assert (b0 = b) by congruence. subst b0. unfold kill_res, kill_eff. split.
+  - intros Kp K. rewrite Kp. apply Z.eqb_neq in K. rewrite K.
+    split; [intros; discriminate|]. right. exists f. auto.
+  - intros Kp real sg. rewrite Kp. simpl. discriminate.
+Qed.
+
+(* the flag: set by KeepGoingWhenKilled, copied by Fork and Clone, left alone by UpdateUsingForked, SetCtx and back-offs *)
+Lemma keep_flag e w i b : nth_error (w_bos w) i = Some b -> b_live b = true ->
+  (exists b', nth_error (w_bos (fst (step e w (OKeepGoing i)))) i = Some b' /\ b_keep b' = true /\
+              b_total b' = b_total b /\ b_max b' = b_max b /\ b_ctx b' = b_ctx b) /\
+  (exists nb, nth_error (w_bos (fst (step e w (OFork i)))) (length (w_bos w)) = Some nb /\ b_keep nb = b_keep b) /\
+  (exists nb, nth_error (w_bos (fst (step e w (OClone i)))) (length (w_bos w)) = Some nb /\ b_keep nb = b_keep b) /\
+  (forall j f, nth_error (w_bos w) j = Some f -> i <> j ->
+     exists b', nth_error (w_bos (fst (step e w (OMerge i j)))) i = Some b' /\ b_keep b' = b_keep b) /\
+  (forall c maxms errid s b', nth_error (w_bos (fst (step e w (OBackoff i c maxms errid s)))) i = Some b' -> b_keep b' = b_keep b).
+Proof.
+  intros H L. pose proof (nth_lt _ _ _ H) as Lt. split; [|split; [|split; [|split]]].
+  - simpl. rewrite H, L. simpl. rewrite nth_upd_same by auto. eexists. split; eauto.
+  - simpl. rewrite H, L. simpl. rewrite nth_app_new. eexists. split; eauto.
+  - simpl. rewrite H, L. simpl. rewrite nth_app_new. eexists. split; eauto.
+  - intros j f Hj N. simpl. rewrite H, Hj. destruct (negb (b_live b && b_live f)); simpl; eauto.
+    destruct (on_chain _ _ _ _); simpl; eauto. rewrite nth_upd_other by auto. rewrite nth_upd_same by auto. eexists. split; eauto.
+  - intros c maxms errid s b' Hb. destruct (step e w (OBackoff i c maxms errid s)) as [w' r] eqn:E. simpl in E.
+    apply do_backoff_cases in E as [[-> _]|(b0 & f & Hn & _ & _ & _ & _ & _ & _ & -> & _)]; simpl in Hb.
+    + congruence.
+    + rewrite nth_upd_same in Hb by auto. assert (b0 = b) by congruence. subst. inversion Hb. reflexivity.
 Qed.
 
 (* ---------- fork / clone ---------- *)
